@@ -15,7 +15,7 @@ PROPERTY = 'C10'
 META = {
     'level': 'exploration',
     'technique': 'runtime invariants (icontract class invariant on the symbol sources + conservation check with counting iterables) and a limit oracle over every parser machine x limit value x limit form x inner length field perturbation',
-    'text': 'Repeat counts are also run under limits below, at and above the count (octets, words, the encapsulation payload) with more input pending: completing successfully with fewer runs than the repeat count is a violation. Each parser machine of the library (typed scalars, SSTRING, STRING, IPADDR, IFACEADDRS, EPATH plain/padded/single/route, status, typed data per type, CPF and every item parser, '
+    'text': 'Counted lists (the Get Attribute List request grammar and the same shape built from the framework\'s parts: count, repeating two-state element, onward transition) under every limit 0..L+1, own and enclosing: success means exactly `count` elements. Repeat counts are also run under limits below, at and above the count (octets, words, the encapsulation payload) with more input pending: completing successfully with fewer runs than the repeat count is a violation. Each parser machine of the library (typed scalars, SSTRING, STRING, IPADDR, IFACEADDRS, EPATH plain/padded/single/route, status, typed data per type, CPF and every item parser, '
             'Unconnected Send, identity/service/legacy items, send_data, register, the CIP command parsers, every registered request/reply machine of Object/Message_Router/Logix and '
             'Connection_Manager, and the frame machine) receives a valid encoding plus a tail, inside an enclosing machine whose symbol limit is supplied as an integer, as a data path and as a '
             'callable at 0, 1, half, len-1, len, len+1 and len+tail; inner length/count fields are also set shorter and longer than their content. Outcomes are classified success / NonTerminal / '
